@@ -108,6 +108,8 @@ def prop_scope(alg):
         for n in (1, 2):
             for b in boxes(2 * n, 0, 2):
                 yield [], list(b)
+        for b in boxes(8, 0, 1):  # four pairs: every path through the five-state automaton of the propagator needs >= 4 positions
+            yield [], list(b)
         for b in boxes(3, 0, 2):  # odd arity: the last variable is ignored (the shipped Schur model does this)
             yield [], list(b)
         for b in boxes(5, 0, 1):
@@ -258,7 +260,28 @@ def prop_random(alg, rng):
             rows.append(list(rows[0]))
         return [x for r in rows for x in r], rbox(rng, n, -2, 3, 4)
     if alg == "lexicographic_leq":
-        n = rng.randint(1, 5)
+        n = rng.randint(1, 6)
+        if rng.random() < 0.6:
+            # position by position, a RELATION between x_i and y_i is drawn (these relations are what the automaton of the
+            # propagator branches on): fixed and equal, x.min = y.max with overlap, x.max = y.min with overlap, x below y,
+            # x above y, overlapping freely
+            xs, ys = [], []
+            for _ in range(n):
+                k = rng.choice(["eq", "eq", "xmin=ymax", "xmax=ymin", "below", "above", "free", "free"])
+                a = rng.randint(0, 3)
+                if k == "eq":
+                    xs.append((a, a)); ys.append((a, a))
+                elif k == "xmin=ymax":
+                    xs.append((a, a + rng.randint(1, 2))); ys.append((a - rng.randint(0, 2), a))
+                elif k == "xmax=ymin":
+                    xs.append((a - rng.randint(0, 2), a)); ys.append((a, a + rng.randint(1, 2)))
+                elif k == "below":
+                    xs.append((a - rng.randint(0, 1), a)); ys.append((a + 1, a + 1 + rng.randint(0, 1)))
+                elif k == "above":
+                    xs.append((a + 1, a + 1 + rng.randint(0, 1))); ys.append((a - rng.randint(0, 1), a))
+                else:
+                    xs.append((a - rng.randint(0, 2), a + rng.randint(0, 2))); ys.append((a - rng.randint(0, 2), a + rng.randint(0, 2)))
+            return [], xs + ys + ([(0, rng.randint(0, 2))] if rng.random() < 0.2 else [])
         return [], rbox(rng, 2 * n + (1 if rng.random() < 0.25 else 0), -1, 3, 2)
     if alg in ("no_sub_cycle", "scc"):
         n = rng.randint(1, 7)
